@@ -432,7 +432,13 @@ def generate(repo):
     # typed glue: resize the counted vector, set the k-th top-level String field
     glue = ['// GENERATED by tools/translate.py — do not edit', '#![allow(unused_variables, unreachable_patterns)]', 'use insim::Packet;', '',
             'fn resize<T: Clone + Default>(v: &mut Vec<T>, k: usize) { while v.len() < k { let e = v.last().cloned().unwrap_or_default(); v.push(e); } v.truncate(k); }', '']
-    vec_arms = []; text_arms = []; ntext = []
+    vec_arms = []; text_arms = []; ntext = []; dur_arms = []; ndur = []
+    def awidth(a):
+        k = a[0]
+        if k in ('num', 'pad', 'flags', 'count', 'text', 'dur'): return a[1]
+        if k in ('enum', 'bool', 'char8'): return 1
+        if k == 'custom': return a[2]
+        raise TranslateError('width of ' + str(a))
     for magic, var, st in variants:
         if st in HAND_PACKETS:
             text_arms.append('        Packet::%s(x) => match idx { 0 => { x.msg = s.to_string(); true }, _ => false },' % var); ntext.append('        Packet::%s(_) => 1,' % var); continue
@@ -440,12 +446,27 @@ def generate(repo):
         for fname, ty, attrs in fields:
             if re.fullmatch(r'Vec<\w+>', ty) and any('count' in a for a in attrs):
                 vec_arms.append('        Packet::%s(x) => { resize(&mut x.%s, k); true },' % (var, fname))
+        durs = [fname for fname, ty, attrs in fields if ty == 'Duration']
+        if durs:
+            lay, _ = g.struct_layout(st); arms = []
+            for i, dn in enumerate(durs):
+                off = 2; hit = None
+                for an, a in lay:
+                    if an == dn and a[0] == 'dur': hit = (off, a[1], a[2]); break
+                    off += awidth(a)
+                if hit is None: raise TranslateError('%s.%s: Duration field without a duration atom' % (st, dn))
+                arms.append('%d => { x.%s = d; Some((%d, %d, %d, "%s")) },' % (i, dn, hit[0], hit[1], hit[2], dn))
+            dur_arms.append('        Packet::%s(x) => match idx { %s _ => None },' % (var, ' '.join(arms)))
+            ndur.append('        Packet::%s(_) => %d,' % (var, len(durs)))
         strs = [fname for fname, ty, attrs in fields if ty == 'String']
         if strs:
             text_arms.append('        Packet::%s(x) => match idx { %s _ => false },' % (var, ' '.join('%d => { x.%s = s.to_string(); true },' % (i, f) for i, f in enumerate(strs))))
             ntext.append('        Packet::%s(_) => %d,' % (var, len(strs)))
     glue += ['pub fn vec_resize(p: &mut Packet, k: usize) -> bool {', '    match p {'] + vec_arms + ['        _ => false,', '    }', '}', '']
     glue += ['pub fn set_text(p: &mut Packet, idx: usize, s: &str) -> bool {', '    match p {'] + text_arms + ['        _ => false,', '    }', '}', '']
+    glue += ['/// set the idx-th top-level Duration field; returns (byte offset in the frame, width, resolution in ms, field name)',
+             'pub fn set_dur(p: &mut Packet, idx: usize, d: std::time::Duration) -> Option<(usize, usize, u64, &\'static str)> {', '    match p {'] + dur_arms + ['        _ => None,', '    }', '}', '']
+    glue += ['pub fn dur_fields(p: &Packet) -> usize {', '    match p {'] + ndur + ['        _ => 0,', '    }', '}', '']
     glue += ['pub fn text_fields(p: &Packet) -> usize {', '    match p {'] + ntext + ['        _ => 0,', '    }', '}', '']
     rust.append('pub static KINDS: &[Kind] = &[\n    ' + ',\n    '.join(rtable) + ',\n];')
     rust.append('')
